@@ -58,6 +58,10 @@ class BreakSignal(Exception):
     pass
 
 
+class ContinueSignal(Exception):
+    pass
+
+
 # ---------------------------------------------------------------------------
 # effect objects (reference semantics)
 
@@ -106,6 +110,13 @@ class HashV:
         self.updates = []
         self.finalized = False
 
+    def out_len(self):
+        """digest size in bytes, read off the hash type name (None if unknown)"""
+        import re as _re
+
+        m = _re.search(r"(?:Sha3_|Sha|Keccak|Blake2[bs])(\d{3})", self.ty or "")
+        return int(m.group(1)) // 8 if m else None
+
 
 class IterV(Val):
     """an iterator over a Vec value (lazy adaptor chain is evaluated eagerly on segments)"""
@@ -117,6 +128,16 @@ class IterV(Val):
 
     def __repr__(self):
         return f"Iter({show(self.vec) if self.vec is not None else 'inf'})"
+
+
+class UserIter(Val):
+    """an iterator value of a crate-local type (its `next` is interpreted), optionally bounded by take(n)"""
+
+    def __init__(self, place, limit=None):
+        self.place, self.limit = place, limit
+
+    def __repr__(self):
+        return f"UserIter(limit={self.limit})"
 
 
 class MutSlot(Val):
@@ -164,6 +185,7 @@ class Interp:
         self.bounds = Bounds()
         self.fn_stack = []
         self.body_stack = []
+        self.loop_base = []
         self.tail_ids = set()
         self.chal_count = {}
         self.draw_log = []  # (rng, atom, loop_ctx, where)
@@ -274,6 +296,11 @@ class Interp:
                 for i, p in enumerate(pat["before"]):
                     self.bind(p, v.index(sp.Integer(i), self.bounds), env)
                 return
+            if isinstance(v, Bytes) and len(v.parts) == 1 and v.parts[0][0] == "u32" and len(pat["before"]) == 4:
+                # `let [b0, b1, b2, b3] = x.to_le_bytes()`: the four encoding bytes, by position
+                for i, p in enumerate(pat["before"]):
+                    self.bind(p, Opaque("byte-of", src=v, j=sp.Integer(i)), env)
+                return
             raise Unanalysable(f"slice pattern against {v!r}")
         raise Unanalysable(f"pattern kind {k}")
 
@@ -371,6 +398,9 @@ class Interp:
                 return inner
             if isinstance(inner, MutSlot):
                 raise Unanalysable("write through an element of a mutable iterator outside a for loop", FX.short(e.get("sp")))
+            if (e["e"].get("ty") or "").startswith("&mut ") and e["e"]["k"] == "Path" and isinstance(inner, (Sc, IntV, Pt, Vec, Struct, Tup, Enum, Bytes)):
+                # `*r = ..` where r: &mut T holds a plain value: the referent was lost on the way (the write would vanish)
+                raise Unanalysable("place behind a mutable reference is not tracked", FX.short(e.get("sp")))
             # deref of a by-value binding holding a plain value (e.g. &T param evaluated by value)
             return self.place(e["e"], env)
         if k == "AddrOf":
@@ -574,7 +604,12 @@ class Interp:
         return e.get("ty", "").startswith("&mut ")
 
     def ev_Tup(self, e, env):
-        return Tup([self.ev(x, env) for x in e["es"]])
+        out = []
+        for x in e["es"]:
+            v = self.ev_raw(x, env)
+            # a mutable borrow stored in a tuple keeps its place (`(&mut w[i], flag)`)
+            out.append(v if isinstance(v, Ref) and self.is_mut_borrow(x) else self.deref(v))
+        return Tup(out)
 
     def ev_Array(self, e, env):
         return Vec.lit([self.ev(x, env) for x in e["es"]])
@@ -634,8 +669,58 @@ class Interp:
         v = self.ev(e["e"], env) if e.get("e") else UNIT
         raise ReturnSignal(v)
 
+    def ev__Val(self, e, env):
+        return e["v"]
+
+    def ev__Py(self, e, env):
+        return e["f"](env)
+
+    def local_next_fn(self, v):
+        """def path of the crate's own `Iterator::next` for a struct value (None if the type has none)"""
+        if not isinstance(v, Struct):
+            return None
+        want = f"<{v.path} as std::iter::Iterator>::next"
+        hits = [p for p in self.F.fns if FX.canon_path(p) == want]
+        return hits[0] if len(hits) == 1 else None
+
+    def user_iter_loop(self, ui, per_elem, env, e):
+        """`limit` calls of the type's own `next`, one generic iteration; every call must yield Some on the analysed path"""
+        where = FX.short((e or {}).get("sp"))
+        if ui.limit is None:
+            raise Unanalysable("loop over an unbounded crate-local iterator", where)
+        st = self.deref(ui.place)
+        nxt = self.local_next_fn(st)
+        if nxt is None:
+            raise Unanalysable(f"no local Iterator::next for {st!r}", where)
+
+        def body(env_):
+            r = self.deref(self.call_fn(nxt, [ui.place]))
+            if not (isinstance(r, Enum) and r.variant == "Some"):
+                raise Unanalysable(f"crate-local iterator may end early: next() = {r!r}", where)
+            per_elem(r.payload[0])
+            return UNIT
+
+        itv = IterV(Vec([Seg(ui.limit, lambda jj: IntV(jj))]))
+        self.run_loop({"k": "Wild"}, itv, {"k": "_Py", "f": body, "sp": (e or {}).get("sp")}, env, e or {})
+
     def ev_Break(self, e, env):
         raise BreakSignal()
+
+    def ev_Continue(self, e, env):
+        # only a `continue` that is unconditional on the evaluated path ends the generic iteration early
+        if len(self.assumed) > (self.loop_base[-1] if self.loop_base else 0):
+            raise Unanalysable("continue under a symbolic condition", FX.short(e.get("sp")))
+        raise ContinueSignal()
+
+    def run_body(self, body, env):
+        """evaluate a loop body for one (generic) iteration"""
+        self.loop_base.append(len(self.assumed))
+        try:
+            self.ev_raw(body, env)
+        except ContinueSignal:
+            pass
+        finally:
+            self.loop_base.pop()
 
     def ev_Assign(self, e, env):
         v = self.ev(e["r"], env)
@@ -1046,6 +1131,28 @@ class Interp:
         if isinstance(scrut, Opaque) and scrut.what == "result":
             c = Cond("is_ok", text=repr(scrut))
             scrut = Ite(c, Enum("Result", "Ok", [scrut.info.get("ok", UNIT)]), Enum("Result", "Err", [scrut.info.get("err", Opaque("error-value"))]))
+        if isinstance(scrut, BoolV):
+            # `match cond { true => A, false => B }` is `if cond { A } else { B }`
+            arm_t = arm_f = None
+            for arm in e["arms"]:
+                p_ = arm["pat"]
+                if arm.get("guard") is not None:
+                    arm_t = arm_f = None
+                    break
+                lit = p_.get("lit") if p_["k"] == "ExprPat" else None
+                if lit == "Bool(true)" and arm_t is None:
+                    arm_t = arm
+                elif lit == "Bool(false)" and arm_f is None:
+                    arm_f = arm
+                elif p_["k"] == "Wild":
+                    arm_t = arm_t or arm
+                    arm_f = arm_f or arm
+                else:
+                    arm_t = arm_f = None
+                    break
+            if arm_t is not None and arm_f is not None:
+                fake = {"k": "If", "c": {"k": "_Val", "v": scrut}, "t": arm_t["body"], "f": arm_f["body"], "sp": e.get("sp"), "spx": e.get("spx"), "ty": e.get("ty")}
+                return self.ev_If(fake, env)
         if isinstance(scrut, Ite):
             # evaluate the match under both alternatives
             return self.ite_branch(scrut.cond, lambda: self.match_val(scrut.a, e, env), lambda: self.match_val(scrut.b, e, env), env, e)
@@ -1054,17 +1161,48 @@ class Interp:
     def ite_branch(self, c, fa, fb, env, e):
         snap = self.snapshot(env)
         old = self.sub_trace()
-        va = self.deref(fa())
+        ra = rb = None
+        va = vb = None
+        self.assuming(c, True)
+        try:
+            va = self.deref(fa())
+        except ReturnSignal as r:
+            ra = r
+        finally:
+            self.assumed.pop()
         ta = self.trace
         sa = self.snapshot(env)
         self.restore(env, snap)
         self.trace = Trace()
-        vb = self.deref(fb())
+        self.assuming(c, False)
+        try:
+            vb = self.deref(fb())
+        except ReturnSignal as r:
+            rb = r
+        finally:
+            self.assumed.pop()
         tb = self.trace
         sb = self.snapshot(env)
         self.trace = old
+        where = FX.short(e.get("sp"))
+        if ra is not None and rb is not None:
+            if ta.items or tb.items:
+                self.trace.add("alt", c, ta.items, tb.items, where)
+            raise ReturnSignal(Ite(c, ra.val, rb.val))
+        if ra is not None or rb is not None:
+            # one alternative leaves the function, the other continues: an early-exit guard
+            ret, t_ret, c_ret = (ra, ta, c) if ra is not None else (rb, tb, c.negate() if isinstance(c, Cond) else c)
+            v_c, t_c, s_c = (vb, tb, sb) if ra is not None else (va, ta, sa)
+            if any(it[0] != "guard" for it in t_ret.items):
+                raise Unanalysable("effects inside an early-return branch", where)
+            self.trace.items.extend(t_ret.items)
+            self.trace.add("guard", c_ret, ret.val, where, self.fn_stack[-1] if self.fn_stack else "")
+            self.learn(c_ret)
+            self.restore(env, s_c)
+            self.trace.items.extend(t_c.items)
+            return v_c
         if ta.items or tb.items:
-            self.trace.add("alt", c, ta.items, tb.items, FX.short(e.get("sp")))
+            self.trace.add("alt", c, ta.items, tb.items, where)
         self.merge(env, c, sa, sb)
         return va if val_eq(va, vb) else Ite(c, va, vb)
 
@@ -1288,12 +1426,15 @@ class Interp:
             else:
                 elem = self.bind_slots(elem, e)
             self.bind(pat, elem, env)
-            self.ev_raw(body, env)
+            self.run_body(body, env)
             return
         j = fresh("j", integer=True, nonnegative=True)
         old_bounds = self.bounds
         self.bounds = self.bounds.with_ub(j, seg.n)
         carried = self.carried_vars(body, env)
+        for pn in FX.walk(pat) if isinstance(pat, dict) and "k" in pat else []:
+            if pn.get("k") == "Bind":
+                carried.pop(pn.get("id"), None)  # bound afresh in every iteration (left in env by an earlier segment)
         counter = getattr(itv, "counter", None)
         if counter is not None:
             carried.pop(counter[0], None)
@@ -1340,7 +1481,7 @@ class Interp:
                 elem = self.bind_slots(elem, e)
             self.bind(pat, elem, env)
             try:
-                self.ev_raw(body, env)
+                self.run_body(body, env)
             except BreakSignal:
                 raise Unanalysable("break inside a summarised loop", where)
             if counter is not None:
@@ -1528,11 +1669,43 @@ class Interp:
             r = hook(self, e, env)
             if r is not NotImplemented:
                 return r
-        if e.get("src") == "While":
+        if e.get("src") in ("While", "Loop"):
             r = self.counting_while(e, env)
             if r is not NotImplemented:
                 return r
+            r = self.while_let_next(e, env)
+            if r is not NotImplemented:
+                return r
         raise Unanalysable(f"loop ({e['src']}) without a summary schema", FX.short(e.get("sp")))
+
+    def while_let_next(self, e, env):
+        """`while let Some(p) = it.next() { body }` with `it` a local iterator the body does not touch: `for p in it`"""
+        b = e["body"]
+        x = b.get("expr") if b["k"] == "Block" and not b["stmts"] else None
+        if x is None or x["k"] != "If" or x["c"]["k"] != "LetExpr" or x.get("f") is None:
+            return NotImplemented
+        fb = x["f"]
+        if not (fb["k"] == "Block" and len(fb["stmts"]) == 1 and fb["stmts"][0]["k"] in ("Expr", "Semi") and fb["stmts"][0]["e"]["k"] == "Break" and fb.get("expr") is None):
+            return NotImplemented
+        pat, init, t = x["c"]["pat"], FX.strip(x["c"]["init"]), x["t"]
+        if not (pat["k"] == "TupleStructPat" and pat["res"].get("path", "").endswith("Some") and len(pat.get("pats", [])) == 1):
+            return NotImplemented
+        if not (init["k"] == "MethodCall" and (init.get("callee") or {}).get("path") == "std::iter::Iterator::next"):
+            return NotImplemented
+        recv = FX.strip(init["recv"])
+        if not (recv["k"] == "Path" and recv["res"]["k"] == "Local" and recv["res"]["id"] in env):
+            return NotImplemented
+        lid = recv["res"]["id"]
+        if any(y["k"] == "Path" and y["res"].get("k") == "Local" and y["res"].get("id") == lid for y in FX.walk(t)):
+            return NotImplemented
+        if FX.own_jumps(t):
+            return NotImplemented
+        itv = self.deref(env[lid])
+        if not isinstance(itv, IterV) or itv.vec is None:
+            return NotImplemented
+        self.run_loop(pat["pats"][0], itv, t, env, e)
+        env[lid] = IterV(Vec([]))
+        return UNIT
 
     def counting_while(self, e, env):
         """`while v < N { ..; v += 1; .. }` / `while v > L { ..; v -= 1; .. }` with an integer local v stepped exactly once,
@@ -1588,7 +1761,7 @@ class Interp:
         ob = FX.strip(other)
         if not (ob["k"] == "Lit" or (local_id(ob) is not None and local_id(ob) != lid and not touches(t, local_id(ob)))):
             return NotImplemented
-        if any(y["k"] in ("Break", "Continue") for y in FX.walk(t)):
+        if FX.own_jumps(t):
             return NotImplemented
         v0 = self.deref(env[lid])
         bound = self.ev(other, env)
@@ -1645,6 +1818,8 @@ class Interp:
             return IterV(Vec([Seg(isym("len_bytes"), lambda j, v=v: Opaque("byte-of", src=v, j=j))]))
         if isinstance(v, Ite):
             raise Unanalysable("iteration over a conditional value")
+        if isinstance(v, UserIter):
+            raise Unanalysable("crate-local iterator used outside take(n).for_each / for loops", FX.short((node or {}).get("sp")))
         raise Unanalysable(f"cannot iterate {v!r}", FX.short((node or {}).get("sp")))
 
     def to_iter_or_inf(self, v, node=None):
